@@ -6,6 +6,6 @@ import "verif/harness/props/c16"
 
 func init() {
 	registry["C16"] = entry{run: c16.Run, level: "exploration",
-		rule: "cases = fault scripts on pairs of in-process nodes federated through real serf/gRPC on loopback, the emitter's stream to the receiver crossing a fault-injecting TCP proxy: 8-32 MQTT operations at the emitter (subscribe/unsubscribe of unique and re-used topics, retained and plain publishes the peer is interested in; one client, or four concurrently) with cuts of all connections, cuts after n more bytes in either direction, 0.3-1 s black holes and cuts during the re-established handshake/resend (thorough: every byte offset 1..600 of a re-established stream); the receiver's applied-event trace (hook after duplicate suppression) must contain every emitted event exactly once in emission order (per client when concurrent) within 15 s after the last fault, the views must converge and every forwarded message must reach the receiver's subscriber once; plus replacement of the receiver by a new node of the same name (full resynchronisation incl. retained messages). Non-trivial = script with at least one fault; distinct by script. Plus: acknowledgements lost in one direction before a resume (60-260 events), resynchronisation while 400 topics are being unsubscribed, bulk events, one-sided bounces, outage with an empty resynchronisation; views are compared with the subscription store. Plus clusters of three nodes whose per-peer event streams have advanced differently (messages forwarded to one peer only): every further subscription change reaches both peers.",
+		rule: "cases = fault scripts on pairs of in-process nodes federated through real serf/gRPC on loopback, the emitter's stream to the receiver crossing a fault-injecting TCP proxy: 8-32 MQTT operations at the emitter (subscribe/unsubscribe of unique and re-used topics, retained and plain publishes the peer is interested in; one client, or four concurrently) with cuts of all connections, cuts after n more bytes in either direction, 0.3-1 s black holes and cuts during the re-established handshake/resend (thorough: every byte offset 1..600 of a re-established stream); the receiver's applied-event trace (hook after duplicate suppression) must contain every emitted event exactly once in emission order (per client when concurrent) within 15 s after the last fault, the views must converge and every forwarded message must reach the receiver's subscriber once; plus replacement of the receiver by a new node of the same name (full resynchronisation incl. retained messages). Non-trivial = script with at least one fault; distinct by script. Plus: acknowledgements lost in one direction before a resume (60-260 events), resynchronisation while 400 topics are being unsubscribed, bulk events, one-sided bounces, outage with an empty resynchronisation; views are compared with the subscription store. Plus clusters of three nodes whose per-peer event streams have advanced differently (messages forwarded to one peer only): every further subscription change reaches both peers. Plus rounds in which one client of a node gives up the last subscription to a filter while another client subscribes to it, with the hook of one of them held between the node's book-keeping and the emission of its event (verif yield sites fed.unsubscribed.counted / fed.subscribed.counted).",
 		assumptions: []string{"hooks of build tag verif expose the applied-event trace and the federation views", "bounded progress: 15 s after the last fault", "serf membership itself is trusted"}}
 }
